@@ -9,7 +9,7 @@ from vf.analytic_model import ref_outputs
 from vf.core import ClauseFail, spec_key
 
 ID = 'C16'
-BUDGET = {'quick': 400, 'thorough': 15000}
+BUDGET = {'quick': 560, 'thorough': 15000}
 ENTRIES = ['em', 'pop', 'pred', 'poppred', 'prior', 'post', 'pam', 'lp', 'hlp', 'flp']
 RULE = (
     'The spec is a small PROGRAM over one sampling entry point (target): error model (4 classes, optionally '
@@ -42,7 +42,8 @@ ASSUMPTIONS = [
     'a seed of type numpy.random.Generator is in the domain only where documented or where chi itself passes one',
     'side effects on the global generators are not judged (the property speaks about results only)']
 REQUIRED = ['entry:' + e for e in ENTRIES] + ['indep', 'gen', 'other:trunc', 'step:npseed', 'step:pyseed',
-                                               'same_family_outputs', 'times:repeated', 'seed:numpy_int', 'pop:hetero_small_calls']
+                                               'same_family_outputs', 'times:repeated', 'seed:numpy_int', 'pop:hetero_small_calls',
+                                               'pop:noncentered:gauss', 'pop:noncentered:lognorm', 'pop:trunc', 'pop:cov']
 SEEDS = st.integers(0, 2 ** 31 - 2)
 GEN_ENTRIES = ('em', 'pop', 'pred', 'poppred', 'prior', 'post')
 DF_ENTRIES = ('prior', 'post', 'pam')
@@ -218,7 +219,7 @@ OTHERS = ['trunc', 'em', 'lp']
 
 @st.composite
 def _spec(draw):
-    entry = draw(st.sampled_from(ENTRIES))
+    entry = draw(st.sampled_from(ENTRIES + ['pop', 'pop', 'em']))      # cheap entries with many model classes: more often
     target = draw(_target(entry))
 
     def other_steps():
@@ -619,6 +620,8 @@ def classify(spec):
                 labs.append('pop:' + k)
         for lf in popgen.leaves(spec['target']['pop']):
             labs.append('pop:' + lf['kind'])
+            if lf['kind'] in ('gauss', 'lognorm') and not lf.get('centered', True):
+                labs.append('pop:noncentered:' + lf['kind'])
     if spec['target'].get('ns', 1) is None:
         labs.append('ns=None')
     if spec.get('seed_form', 'int') != 'int':
